@@ -780,7 +780,7 @@ def _cfg_ft(tier):
             emit(shape, DBL, ('none', 'create') if more else ('none',))
             if shape in ([3, 4], [5, 2]):
                 emit(shape, ('float32', 'complex64'), ('none',))
-        for shape in ([2, 3, 2], [3, 4, 5]):
+        for shape in ([2, 3, 2], [5, 2, 4]):
             emit(shape, DBL, ('none',))
     return cfgs
 
